@@ -30,7 +30,7 @@ def make_stubs(world):
     def getfullargspec(eng, st, pos, kw):
         b = pos[0]
         if not isinstance(b, SBound):
-            raise Unsupported('getfullargspec of a non-method')
+            return eng.unsupported(st, 'getfullargspec of a non-method')
         if b.cls.startswith('$'):
             n = 4 if b.cls.endswith('3') else 5
         else:
@@ -165,7 +165,7 @@ def make_stubs(world):
         out = []
         a, b = eng.split(st, z3.Or(eng.is_dictlike(st, arg), z3.And(V.is_obj(arg), S.mapping_like(eng, arg))))
         if b is not None:
-            raise Unsupported('symbolic format string applied to a non-mapping')
+            eng.unsupported(b, 'symbolic format string applied to a non-mapping')
         m = eng.map_of(a, arg)
         w, nw = eng.split(a, wfp(V.s(f)))
         if w is not None:
@@ -240,5 +240,116 @@ def make_stubs(world):
                     if b is None:
                         break
         return out
+
+
+    # ------------------------------------------------------------------ misc identity-like helpers
+    @S.fn('oslo_policy._i18n._', doc='gettext marker: returns its argument')
+    def i18n(eng, st, pos, kw):
+        return ok(st, pos[0])
+
+    @S.fn('contextlib.closing', doc='context manager yielding its argument; close() has no effect on control flow')
+    def closing(eng, st, pos, kw):
+        return ok(st, pos[0])
+
+    @S.fn('warnings.warn', doc='no effect on control flow (warnings are not turned into errors)')
+    def warn(eng, st, pos, kw):
+        return ok(st, NONE)
+
+    # ------------------------------------------------------------------ copy.deepcopy
+    from specs.external import dcopy, jdumps, fs_exists, fs_readable
+
+    @S.fn('copy.deepcopy', doc='result shares no mutable object with its argument; a mapping is copied to a new '
+          'dict object with the same keys whose values are dcopy(value) (dcopy(v) = v for JSON-like v); an object '
+          'is copied to a fresh object of the same class with field-wise copied content (contract $deepcopy_obj)')
+    def deepcopy(eng, st, pos, kw):
+        a = pos[0]
+        if isinstance(a, Static):
+            raise Unsupported('deepcopy(static)')
+        out = []
+        x, rest = eng.split(st, z3.Or(eng.is_dictlike(st, a), z3.And(V.is_obj(a), S.mapping_like(eng, a))))
+        if x is not None:
+            m = eng.map_of(x, a)
+            m2 = eng.fresh('dc', z3.ArraySort(Str, V))
+            k = z3.String('dc!k')
+            from pyvc.values import qforall
+            x.assume(qforall([k], z3.Select(m2, k) == z3.If(z3.Select(m, k) == ABSENT, ABSENT, dcopy(z3.Select(m, k))),
+                             patterns=[z3.Select(m2, k)]))
+            x.assume(keys_of(m2) == keys_of(m))
+            o = eng.new_dict(x, m2)
+            out.append((x, 'ok', o))
+        if rest is None:
+            return out
+        x, rest = eng.split(rest, V.is_obj(a))
+        if x is not None:
+            c = eng.contracts.get('$deepcopy_obj')
+            if c is None:
+                raise Unsupported('deepcopy of an object')
+            out.extend(eng.apply_contract(x, c, [a], {}))
+        if rest is not None:
+            out.append((rest, 'ok', dcopy(a)))
+        return out
+
+    # ------------------------------------------------------------------ jsonutils
+    @S.fn('jsonutils.dumps', doc='returns the string jdumps(value) or raises (any Exception subclass other than '
+          'KeyError) for unserialisable input')
+    def dumps(eng, st, pos, kw):
+        a = pos[0]
+        if isinstance(a, Static):
+            raise Unsupported('dumps(static)')
+        bad = st.fork()
+        return [(st, 'ok', V.str(jdumps(eng.val(st, a)))), (bad, 'exc', ExcVal('$OtherException'))]
+
+    # ------------------------------------------------------------------ os / files
+    def _w_fs():
+        import os, tempfile
+        d = tempfile.mkdtemp()
+        try:
+            return os.path.exists(d) and not os.path.exists(os.path.join(d, 'nope')) and os.access(d, os.R_OK)
+        finally:
+            os.rmdir(d)
+
+    @S.fn('os.path.exists', doc='ghost file system: fs_exists(path)', witness=_w_fs)
+    def exists(eng, st, pos, kw):
+        st.assume(V.is_str(pos[0]))
+        return ok(st, mk_bool(fs_exists(V.s(pos[0]))))
+
+    @S.fn('os.access', doc='ghost file system: fs_readable(path) (only used with os.R_OK)')
+    def access(eng, st, pos, kw):
+        st.assume(V.is_str(pos[0]))
+        return ok(st, mk_bool(fs_readable(V.s(pos[0]))))
+
+    # ------------------------------------------------------------------ requests
+    def _w_requests():
+        import requests
+        from requests.exceptions import Timeout
+        return issubclass(Timeout, OSError) and hasattr(requests, 'post')
+
+    @S.fn('requests.post', doc='returns a response whose .text is an arbitrary string, or raises Timeout, or raises '
+          'any other exception (connection/TLS failure); the arguments of the call are recorded as ghost state',
+          witness=_w_requests)
+    def post(eng, st, pos, kw):
+        rec = {'url': pos[0] if pos else kw.get('url')}
+        for k in ('json', 'data', 'timeout', 'cert', 'verify'):
+            rec[k] = kw.get(k)
+        text = eng.fresh('resp_text', Str)
+        rec['text'] = text
+        outs = []
+        for kind in ('ok', 'Timeout', '$OtherException'):
+            s = st.fork()
+            s.ghost['$posts'] = s.ghost.get('$posts', []) + [dict(rec, outcome=kind)]
+            if kind == 'ok':
+                r = eng.alloc(s, '$Response')
+                eng.set(s, r, 'text', V.str(text))
+                outs.append((s, 'ok', r))
+            else:
+                outs.append((s, 'exc', ExcVal(kind)))
+        return outs
+    S.fields['text'] = ['$Response']
+    for f in ('oslo_policy',):
+        S.fields[f] = ['$Conf']
+    for f in ('remote_timeout', 'remote_content_type', 'remote_ssl_client_crt_file', 'remote_ssl_client_key_file',
+              'remote_ssl_ca_crt_file', 'remote_ssl_verify_server_crt', 'enforce_scope', 'enforce_new_defaults',
+              'policy_file', 'policy_dirs', 'policy_default_rule'):
+        S.fields[f] = ['$OsloPolicyGroup']
 
     return S
